@@ -362,8 +362,13 @@ def run(ctx):
     ctx.log("TLC exported %d histories over %d (configuration, scenario) alphabets" % (nhist, len(exports)))
     sim = {}
     if thorough:
-        sim = export_histories(ctx, "sim", simulate=20000, simdepth=8)
-        ctx.log("TLC -simulate exported %d deeper histories" % sum(len(v) for v in sim.values()))
+        # (under -simulate TLC evaluates the Export invariant on every successor of the state it is about to leave:
+        # the random walks come with all their last steps; a seeded sample of them is run)
+        sim = export_histories(ctx, "sim", simulate=500, simdepth=8)
+        nsim = sum(len(v) for v in sim.values())
+        for k in sorted(sim):
+            sim[k] = ctx.rng.sample(sim[k], min(len(sim[k]), 2500))
+        ctx.log("TLC -simulate exported %d deeper histories, %d kept" % (nsim, sum(len(v) for v in sim.values())))
 
     # ---- which object runs what: exhaustive on the test object and on one object per kind, a sample on the rest
     rng = ctx.rng
